@@ -44,14 +44,14 @@ def check(ctx):
         base[h] = g(h.lower() + '2_regex')
         _inc(ctx, 'RX-LANG', f"{h.lower()}2_regex", F.half_family(h), base[h], f"{h} half spellings")
 
-    _tables(ctx, base)
-    _glue(ctx, base)
-    _canonical_fixed_point(ctx, base)
-    _joiners(ctx)
-    _order(ctx)
-    _half_plus_q(ctx)
-    fixpoint_loops(ctx, 'tract_preprocess', 3)
-    stripset(ctx, [ctx.repo.func('tract_preprocess:process_half_plus_q_match')])
+    ctx.attempt(_tables, base)
+    ctx.attempt(_glue, base)
+    ctx.attempt(_canonical_fixed_point, base)
+    ctx.attempt(_joiners)
+    ctx.attempt(_order)
+    ctx.attempt(_half_plus_q)
+    ctx.attempt(fixpoint_loops, 'tract_preprocess', 3)
+    ctx.attempt(stripset, [ctx.repo.func('tract_preprocess:process_half_plus_q_match')])
 
 
 def _tables(ctx, base):
